@@ -79,7 +79,7 @@ func c08Sites(t []string) int {
 	return n
 }
 
-var c08BodyLines = []string{"", "x", "E ", " E", "EE", "\tx", "\tE", "$v", "$(c)", "`c`", "\\$v", "a\\b"}
+var c08BodyLines = []string{"", "x", "E ", " E", "EE", "\tx", "\tE", "$v", "$(c)", "`c`", "\\$v", "a\\b", "${v}E", "$(c)E", "\\$E", "$1EF"}
 
 type c08Delim struct {
 	src, delim string
@@ -309,7 +309,7 @@ func c08Run(w *W) {
 			for _, op := range ops {
 				for _, d := range c08Delims {
 					for _, b := range bs {
-						if !w.thorough() && len(b) == 1 && (b[0] == "EE" || b[0] == " E" || b[0] == "a\\b" || b[0] == "`c`") {
+						if !w.thorough() && len(b) == 1 && (b[0] == "EE" || b[0] == " E" || b[0] == "a\\b" || b[0] == "`c`" || b[0] == "$(c)E" || b[0] == "\\$E" || b[0] == "$1EF") {
 							continue
 						}
 						if s, ok := mk(op, d, b); ok {
@@ -392,8 +392,8 @@ func init() {
 	register(&check{
 		id:    "C08",
 		level: "model_checking",
-		rule: "42 host templates with 1–3 here-document sites (simple command, both sides of a pipe, lists, every compound form, function body, compound redirection, inside $( ) and backquotes, before && / | + newline, numbered, several on one line and on different lines) × {<<, <<- with 0–3 tabs before the delimiter line} × delimiters {E, 'E', \"E\", E\\F} × bodies from the 12-line menu " +
-			"{empty, x, 'E ', ' E', EE, tab+x, tab+E, $v, $(c), `c`, \\$v, a\\b} (one-site: all sequences ≤ 2 lines; two sites: ≤ 1 line each; three sites: 8 variants each); every program under ALL schedules of the lexer/parser pair (one site) or all schedules with ≤ 1 preemption (more sites); second phase: every sentence of the derivation generator that carries a here-document (D0, D1, DH; thorough D2, DC) in one-line and multi-line layout under all schedules with ≤ 1 preemption, judged against the grammar model's AST",
+		rule: "42 host templates with 1–3 here-document sites (simple command, both sides of a pipe, lists, every compound form, function body, compound redirection, inside $( ) and backquotes, before && / | + newline, numbered, several on one line and on different lines) × {<<, <<- with 0–3 tabs before the delimiter line} × delimiters {E, 'E', \"E\", E\\F} × bodies from the 16-line menu " +
+			"{empty, x, 'E ', ' E', EE, tab+x, tab+E, $v, $(c), `c`, \\$v, a\\b, ${v}E, $(c)E, \\$E, $1EF} (one-site: all sequences ≤ 2 lines; two sites: ≤ 1 line each; three sites: 8 variants each); every program under ALL schedules of the lexer/parser pair (one site) or all schedules with ≤ 1 preemption (more sites); second phase: every sentence of the derivation generator that carries a here-document (D0, D1, DH; thorough D2, DC) in one-line and multi-line layout under all schedules with ≤ 1 preemption, judged against the grammar model's AST",
 		assume: []string{"backslash-newline inside bodies is outside the alphabet (POSIX removes it, 'byte for byte' cannot be demanded there)", "scheduler as in C06 (e2.go)"},
 		run:    c08Run,
 		replay: func(raw json.RawMessage) error {
